@@ -13,7 +13,7 @@ use serde_json::json;
 
 #[derive(Clone, Debug)]
 struct Section {
-    parent_cb: u8, // 0 legacy 1-in/1-out, 1 legacy 2-out with 0xfd-byte script, 2 segwit with witness stack
+    parent_cb: u8, // 0 legacy 1-in/1-out, 1 legacy 2-out with 0xfd-byte script, 2 segwit with witness stack, 3 / 4 huge
     cb_branch: usize,
     chain_branch: usize,
     mask: u32,
@@ -41,6 +41,7 @@ fn build_section(s: &Section, seed: u8, block_version: u32) -> AuxPow {
         0 => Tx { version: 1, segwit: false, inputs: vec![TxIn::coinbase(vec![3, 1, 2, 3, 0xfa, 0xbe, b'm', b'm'])], outputs: vec![TxOut { value: 25, script: script::p2pkh(&script::h20(seed)) }], locktime: 0 },
         1 => Tx { version: 2, segwit: false, inputs: vec![TxIn::coinbase(vec![0x51; 100])], outputs: vec![TxOut { value: 25, script: vec![0x51; 0xfd] }, TxOut { value: 0, script: script::op_return(b"aux") }], locktime: 7 },
         3 => Tx { version: 1, segwit: false, inputs: vec![TxIn::coinbase(vec![0x51; 70_000])], outputs: (0..300).map(|k| TxOut { value: k, script: vec![0x51; 40 + (k as usize % 7)] }).collect(), locktime: 1 },
+        4 => Tx { version: 1, segwit: false, inputs: vec![TxIn::coinbase(vec![0x51; 17_000_000])], outputs: (0..70_000).map(|k| TxOut { value: k, script: vec![0x51; 25] }).collect(), locktime: 1 },
         _ => {
             let mut i = TxIn::coinbase(vec![3, 9, 9, 9]);
             i.witness = vec![vec![0u8; 32], vec![], vec![1, 2, 3]];
@@ -91,6 +92,9 @@ pub fn run() -> Report {
         }
         // a parent coinbase far larger than any buffer: 70 000-byte scriptSig, 300 outputs
         cases.push(Case { coin: cn, versions: vec![thr, thr - 1, thr + 5], section: Section { parent_cb: 3, cb_branch: 3, chain_branch: 2, mask: 7, parent_version: 0 }, label: "huge-parent-coinbase".into() });
+        // a section of more than 20 MB in total (beyond 2^24 bytes and any plausible "no block is that large" budget): a 17 MB
+        // parent coinbase scriptSig, 70 000 outputs, branches of 70 000 and 66 000 hashes (counts in the 0xfe CompactSize form)
+        cases.push(Case { coin: cn, versions: vec![thr, thr + 1], section: Section { parent_cb: 4, cb_branch: 70_000, chain_branch: 66_000, mask: 9, parent_version: 0 }, label: "section-beyond-20MB".into() });
         // long-branch sweeps (CompactSize boundary at 0xfd)
         let longs: Vec<usize> = if thorough { vec![5, 11, 32, 33, 0xfc, 0xfd, 0xfe, 1000] } else { vec![11, 33, 0xfd] };
         for &n in &longs {
